@@ -35,7 +35,24 @@ CLAIMS = {
         'VolumeDescriptorDate.new(0.0) is the documented "unspecified" sentinel and is excluded (theorem C19_vd_zero_is_unspecified). '
         'Offsets that are not multiples of 15 min (historic LMT) are outside the property and skipped (counted).'),
   technique='Coq proof over translated gmtoffset_from_tm + calendar sweep; byte-level model/implementation differential run over TZ x instants',
-  design='§8.19'),
+  design='§8.19'), 'C18': dict(
+  category='proof',
+  text=('Theorems C18_file_legal / C18_dir_legal (Coq, closed): for EVERY non-empty code-point string, every level 1-3 '
+        'and EVERY upper-casing function that never returns the empty string, the identifier derived by the model of '
+        'mangle_file_for_iso9660 / mangle_dir_for_iso9660 / truncate_basename is accepted by the model of '
+        '_check_iso9660_filename / _check_iso9660_directory and satisfies the declarative legality predicate; '
+        'C18_fixed_*: already-legal input is returned unchanged apart from ";1" (upper() identity on d-characters); '
+        'C18_level4_partial + refuted witnesses state exactly where the full claim fails (level 4 names with ";", '
+        'legal level-2/3 extensions > 3 and directory names > 31 characters: known findings).  The d-character set is '
+        'TRANSLATED from /repo on every run.  Tie: the models are evaluated in Coq on ~35k (quick) / ~400k (thorough) '
+        '(name, level, kind) triples and compared with the real helpers and checkers; the property itself is evaluated '
+        'on the implementation with independent legality predicates, real add_fp/add_directory+write_fp edits and the '
+        'Rock Ridge facade end to end.'),
+  note=('Trusted: Coq kernel + vm_compute; translator (d1 set); hand model Names.v tied by differential run; '
+        'str.upper treated as an arbitrary function; names are non-empty, without "/" or NUL, valid Unicode. '
+        'Collision of two source names on one derived identifier is outside this property (C13/C20).'),
+  technique='Coq proof of mangling legality for all strings and all upper() functions + model/implementation differential run',
+  design='§8.18'),
 }
 
 NA_REASON = 'check not built yet (work in progress; see DESIGN.md section 8)'
